@@ -801,8 +801,14 @@ static int _fetch_and_process_packet(OggVorbis_File *vf,
 
             if(ogg_page_bos(&og)){
               /* boundary case */
-              if(!spanp)
+              if(!spanp){
+                /* not allowed to cross; put the page back (if we can) so
+                   that a later spanning read still sees the boundary
+                   instead of mistaking the whole next link for a
+                   multiplexed foreign stream */
+                if(vf->seekable)_seek_helper(vf,ret);
                 return(OV_EOF);
+              }
 
               _decode_clear(vf);
 
